@@ -370,4 +370,23 @@ theorem next_closed_reports (s s' : State) (l : Label) (hc : s.status = .closed)
       · exact absurd hc hnc
       · exact ⟨e0, he0, hsub⟩
 
+/-! ### small facts used by the property files -/
+
+theorem applyEff_closed (s : State) (e : Eff) (h : s.status = .closed) : (applyEff s e).status = .closed := by
+  cases e <;> simp_all
+
+theorem applyEffs_closed (es : List Eff) (s : State) (h : s.status = .closed) : (applyEffs s es).status = .closed := by
+  induction es generalizing s with
+  | nil => exact h
+  | cons e r ih => exact ih _ (applyEff_closed s e h)
+
+theorem applyEffs_log_prefix (es : List Eff) (s : State) : s.log <+: (applyEffs s es).log := by
+  rw [log_applyEffs_eq]; exact List.prefix_append _ _
+
+theorem reachable_ghost (s : State) (h : Reachable s) : Ghost s :=
+  reachable_invariant Ghost Ghost.init next_ghost s h
+
+theorem reachable_regOk (s : State) (h : Reachable s) : RegOk s :=
+  reachable_invariant RegOk RegOk.init next_regOk s h
+
 end CentrifugeVerif.SubProto
